@@ -1,6 +1,8 @@
 """property id -> contract modules that carry obligations for it"""
 TECH = "contract-based deductive verification: VCs generated from the AST of the real functions, discharged by z3/cvc5"
 PROPS = {
+    "C11": {"modules": ["contracts.vhd", "contracts.vhdx", "contracts.vmdk", "contracts.vdi", "contracts.hdd", "contracts.c11"], "level": "proof",
+            "technique": TECH + "; loop variants without well-formedness assumptions; finite-universe variants for reference walks"},
     "C13": {"modules": ["contracts.vhd", "contracts.vhdx", "contracts.vmdk", "contracts.vdi", "contracts.hdd", "contracts.c13"], "level": "proof",
             "technique": TECH + "; ghost I/O-cost postconditions; unbounded-integer arithmetic for wide offsets"},
     "C10": {"modules": ["contracts.vmdk_c10", "contracts.vmdk", "contracts.hdd"], "level": "proof", "technique": TECH + "; regex language inclusion for the extent grammar"},
